@@ -141,9 +141,11 @@ func c05xCheck(sc c05xScenario, want map[bool]map[string]string, env *c05xEnv, x
 func TestVerifC05GeoIPRace(t *testing.T) {
 	r := vrt.Start("C05")
 	dir := t.TempDir()
+	cleanup := func() {}
 	if d, err := os.MkdirTemp("/dev/shm", "verif-c05x-"); err == nil {
 		dir = d
-		defer os.RemoveAll(d)
+		// The process leaves through os.Exit: no defers.
+		cleanup = func() { _ = os.RemoveAll(d) }
 	}
 	// What each database says, on databases that have only ever seen it.
 	// want[reverse] is the answer AFTER a refresh in that direction.
@@ -177,14 +179,14 @@ func TestVerifC05GeoIPRace(t *testing.T) {
 			scenarios = append(scenarios, c05xScenario{Addrs: []int{0, 1}, Reverse: rev})
 		}
 		r.Bound("geoip_race_scenarios", len(scenarios))
-		r.Bound("geoip_race_preemptions", vrt.Pick(r, "3", "unbounded"))
+		r.Bound("geoip_race_preemptions", vrt.Pick(r, "1", "2"))
 		for si, sc := range scenarios {
 			if si%nshards != shard {
 				continue
 			}
 			var env *c05xEnv
 			found := 0
-			st := xsched.Explore(xsched.Config{MaxPreemptions: vrt.Pick(r, 3, -1), MaxDeviations: 0, Stop: r.Expired},
+			st := xsched.Explore(xsched.Config{MaxPreemptions: vrt.Pick(r, 1, 2), MaxDeviations: 0, Stop: r.Expired},
 				func(s *xsched.Sched) { env = c05xSetup(dir, sc, s) },
 				func(x *xsched.Exec) bool {
 					r.Eval()
@@ -205,5 +207,6 @@ func TestVerifC05GeoIPRace(t *testing.T) {
 		}
 	}
 	r.Finish()
+	cleanup()
 	os.Exit(0)
 }
